@@ -395,6 +395,13 @@ class BodyPartReader:
     async def _read_chunk(self, size: int) -> bytes:
         if self._at_eof:
             return b""
+        if self._unread:
+            # readline() keeps the line it has read ahead: after a switch to
+            # reading by chunks (release() does) that line goes back first.
+            with warnings.catch_warnings():
+                warnings.filterwarnings("ignore", category=DeprecationWarning)
+                self._content.unread_data(b"".join(self._unread))
+            self._unread.clear()
         carry = self._b64_carry
         want = size - len(carry)
         if carry:
